@@ -352,10 +352,16 @@ func c12GateRun(e *c12GateEnv, r *rand.Rand, c c12GateCase, marker string) (c12G
 	case "empty":
 		body = nil
 	case "malformed":
-		body = []byte(c12Pick(r, "{", "not json", string(okBody[:len(okBody)/2]), "\"str\"", "12", "{\"jsonrpc\":\"2.0\",\"id\":1,\"method\":7}", "\xff\xfe", "}"+string(okBody)))
+		body = []byte(c12Pick(r, "{", "not json", string(okBody[:len(okBody)/2]), "\"str\"", "12", "{\"jsonrpc\":\"2.0\",\"id\":1,\"method\":7}", "\xff\xfe", "}"+string(okBody), "["+string(okBody)+" x]", "["+string(okBody)+",]", "["+string(okBody)+string(okBody)+"]"))
 	case "trailing":
-		// one well-formed message followed by more non-blank bytes: not a JSON text
-		body = []byte(string(okBody) + c12Pick(r, "}", " x", "]", ",", "\n"+string(okBody), string(okBody), "\n{\"jsonrpc\":\"2.0\",\"method\":\"notifications/progress\",\"params\":{\"progressToken\":\"t\",\"progress\":2}}", "\x00"))
+		// one well-formed message (or a legacy batch holding it) followed by more non-blank bytes - a second JSON value,
+		// stray punctuation, a NUL: not a JSON text
+		tail := c12Pick(r, "}", " x", "]", ",", "\n"+string(okBody), string(okBody), "\n{\"jsonrpc\":\"2.0\",\"method\":\"notifications/progress\",\"params\":{\"progressToken\":\"t\",\"progress\":2}}", "\x00", "[]", "null", " 1")
+		if r.IntN(4) == 0 {
+			okBody = []byte("[" + string(okBody) + "]") // batch form (accepted before 2025-06-18)
+			conc["batch"] = "1"
+		}
+		body = []byte(string(okBody) + tail)
 		conc["tail"] = strconv.Quote(string(body[len(okBody):min(len(body), len(okBody)+12)]))
 	}
 	conc["bodylen"] = strconv.Itoa(len(body))
